@@ -397,8 +397,9 @@ func check(c *Ctx, r *Report) error {
 	r.Coverage["coq_cases"] = cases.Len()
 	polygonStratum(c, r, rng)
 	splitLineStratum(c, r, viol, nil, false)
+	shortEdgeStratum(c, r, viol)
 	nilOperandStratum(c, r, viol, nil, false)
-	r.Rule = "primitives: parameter vectors in a dyadic-exact and a random regime (rounding 0 / 2^-20 / half / admissible maximum, radius 0, length 0, capsule, pointed cones, rational (Pythagorean) and irrational cone slopes) x points placed by construction in every branch region (27 box regions, the cone's above/below/inside/slope/rim regions, medial axes, rotation axis, exactly on faces/planes/vertices, far away); each Evaluate compared with an exact rational specification in Go (all points) and in Coq at QOps together with the FOps model (points whose rho is exactly representable). Lipschitz: random trees (depth <= 4) over the listed combinators, " + fmt.Sprint(npairs) + " probe pairs each (segments, near-coincident pairs, pairs straddling coordinate planes, box faces, the rotation axis and sector boundaries), violating pairs bisected. POLYGON on its quadtree's split lines (splitline.go): rectilinear skylines filling the bounding box from each of the four sides with breakpoints ON (and 0..3 ulp / 1e-12..1e-7 next to) split lines of every level - risers and treads shorter than a cell, starting on grid crossings, ending on the bounding box, spanning cells -, staircases with risers and treads on the lines (short, 1 cell, 2 cells), steps / U shapes on the centre and level-2 lines in 4 rotations, star-shaped polygons with vertices on lines and crossings, convex hulls of grid crossings (oblique edges through corners of four cells), both orientations, boxes at the origin / off the origin / irrational / 1e-3 / 1e5; query points = full grid {vertex xs, every quadtree box edge, bounding box, 2.5 and 10 sizes away} x {same for y} plus the rows and columns midway between consecutive levels; oracles: exact rational signed distance (crossing-number parity, exact squared distance) at every grid point, |f(p)-f(q)| <= |p-q| for all neighbouring grid points and random probe pairs. ABSENT OPERANDS (nilops.go): Union2D / Union3D calls with nil arguments in every position (every subset of the gaps for 2 and 3 operands; leading / each interior gap / trailing / everywhere and random runs of 1..3 for 4..6 operands), the nil a literal or what Multi / LineOf / Array / Intersect / Difference / Union / Orient return for an empty list or a nil operand; operands = translated exact primitives (exact rational minimum of the operands' signed distances as reference) or random trees of the claimed class; plain minimum and PolyMin; alone, under Transform / Offset / Extrude and inside an outer union with nils of its own; value and bounding box bit for bit those of the same call without the nils, 1-Lipschitz pair search on the shape built with the nils. non-trivial = every primitive case; trees with >= 2 distinct constructors. distinct by primitive+point / tree description."
+	r.Rule = "primitives: parameter vectors in a dyadic-exact and a random regime (rounding 0 / 2^-20 / half / admissible maximum, radius 0, length 0, capsule, pointed cones, rational (Pythagorean) and irrational cone slopes) x points placed by construction in every branch region (27 box regions, the cone's above/below/inside/slope/rim regions, medial axes, rotation axis, exactly on faces/planes/vertices, far away); each Evaluate compared with an exact rational specification in Go (all points) and in Coq at QOps together with the FOps model (points whose rho is exactly representable). Lipschitz: random trees (depth <= 4) over the listed combinators, " + fmt.Sprint(npairs) + " probe pairs each (segments, near-coincident pairs, pairs straddling coordinate planes, box faces, the rotation axis and sector boundaries), violating pairs bisected. POLYGON on its quadtree's split lines (splitline.go): rectilinear skylines filling the bounding box from each of the four sides with breakpoints ON (and 0..3 ulp / 1e-12..1e-7 next to) split lines of every level - risers and treads shorter than a cell, starting on grid crossings, ending on the bounding box, spanning cells -, staircases with risers and treads on the lines (short, 1 cell, 2 cells), steps / U shapes on the centre and level-2 lines in 4 rotations, star-shaped polygons with vertices on lines and crossings, convex hulls of grid crossings (oblique edges through corners of four cells), both orientations, boxes at the origin / off the origin / irrational / 1e-3 / 1e5; query points = full grid {vertex xs, every quadtree box edge, bounding box, 2.5 and 10 sizes away} x {same for y} plus the rows and columns midway between consecutive levels; oracles: exact rational signed distance (crossing-number parity, exact squared distance) at every grid point, |f(p)-f(q)| <= |p-q| for all neighbouring grid points and random probe pairs. POLYGON with very short edges (shortedge.go): edge length / extent in {1e-9, 1e-10, 1e-12, 1e-15} x extent in {1e-3, 1, 1e3, 1e6}, the short edge a jog (8 directions), a chamfered corner (one, several, all), a collinear split, as first / last / closing edge of the list, both orientations, and whole polygons 1e-10 .. 1e-15 across at and off the origin; specification from the VERTEX LIST only (exact rational crossing number and squared distance); Polygon2D on the grid of vertex levels / mid levels / far columns and on probes level with both ends of every short edge (and 1 ulp above / below, midway) 10 and 1e6 extents away, inside the extent and a few edge lengths away, Lipschitz between neighbouring levels and random pairs; Mesh2D and Mesh2DSlow on a segment list built in the harness, at the probes; a constructor rejecting such a simple polygon is a violation. ABSENT OPERANDS (nilops.go): Union2D / Union3D calls with nil arguments in every position (every subset of the gaps for 2 and 3 operands; leading / each interior gap / trailing / everywhere and random runs of 1..3 for 4..6 operands), the nil a literal or what Multi / LineOf / Array / Intersect / Difference / Union / Orient return for an empty list or a nil operand; operands = translated exact primitives (exact rational minimum of the operands' signed distances as reference) or random trees of the claimed class; plain minimum and PolyMin; alone, under Transform / Offset / Extrude and inside an outer union with nils of its own; value and bounding box bit for bit those of the same call without the nils, 1-Lipschitz pair search on the shape built with the nils. non-trivial = every primitive case; trees with >= 2 distinct constructors. distinct by primitive+point / tree description."
 	r.Trusted = append(r.Trusted,
 		"hand model coq/Sdf/Shape.v tied by differential execution at FOps (here on region-targeted points, in C01 on random trees); matrix code translated from the Go AST by harness/exprgen on every run",
 		"the Go re-implementation of the specification (cmd/c03/oracle.go) is only used for points whose rho is not a float; all other points are judged by coqc")
